@@ -1,7 +1,37 @@
 package main
 
+var c04Pkgs = []pkgRef{
+	{"util/semver", "deps.dev/util/semver"},
+	{"util/resolve", "deps.dev/util/resolve"},
+	{"util/resolve", "deps.dev/util/resolve/internal/attr"},
+	{"util/resolve", "deps.dev/util/resolve/dep"},
+	{"util/resolve", "deps.dev/util/resolve/version"},
+	{"util/resolve", "deps.dev/util/resolve/pypi"},
+	{"util/pypi", "deps.dev/util/pypi"},
+	{"util/maven", "deps.dev/util/maven"},
+}
+
 func init() {
 	semver := pkgRef{"util/semver", "deps.dev/util/semver"}
+	propDefs["C04"] = &PropDef{
+		ID:       "C04",
+		Replayer: replayC04,
+		Extra: func(c *checkCtx, wb bool) []OblResult {
+			return sweepFuncs(c, c04Pkgs, wb, nil)
+		},
+		Assume: []string{
+			"only the obligations of the committed inventory (/verif/baseline/C04.json) are claimed: sites that need contracts not yet written are listed as not claimed",
+			"receivers and pointer parameters may be nil unless a contract says otherwise; loops without an invariant are cut with everything they write forgotten",
+			"termination is not part of the discharged obligations except for loops carrying a `decreases` clause",
+		},
+	}
+	propDefs["C13"] = &PropDef{
+		ID:   "C13",
+		Pkgs: []pkgRef{{"util/resolve", "deps.dev/util/resolve"}},
+		Assume: []string{
+			"partial: only the comparators Canon relies on (PackageKey, VersionKey, NodeError, Node) are decided: total orders whose zero is structural equality; canonBFS, renumber, Mapping, Swap/Less and the isomorphism statement itself are not covered",
+		},
+	}
 	propDefs["C01"] = &PropDef{
 		ID:       "C01",
 		Pkgs:     []pkgRef{semver},
